@@ -209,7 +209,9 @@ func (lex *Lexer) call(state int, fnext int) {
 func (lex *Lexer) ret(n int) {
 	if n > lex.top {
 		// unbalanced closing brace: there is no state to return to,
-		// stay in the current one
+		// carry on in the php state (lex.cs may still hold the state in
+		// which an earlier, abandoned scan met the end of the input)
+		lex.cs = lexer_en_php
 		lex.p++
 		return
 	}
